@@ -171,6 +171,7 @@ func main() {
 		}
 		t := simrt.NewTape(seed)
 		c := &Ctx{T: t, Tier: *tier, Cfg: cfg, Cnt: cnt, Run: i}
+		simrt.ResetPools()
 		r := w.run(c)
 		runs++
 		for s := 0; s < 4; s++ {
@@ -193,6 +194,10 @@ func main() {
 			if r.Fatal {
 				break
 			}
+		} else if r.Fatal {
+			// process state tainted without a violation (harness cap): recycle the process
+			emit(&outLine{K: "stop", I: i})
+			break
 		}
 	}
 	hs := make([]string, 0, len(seen))
@@ -226,10 +231,12 @@ func doReplay(path string) {
 	// prefix runs re-create the worker's process-global history
 	for _, i := range rf.Prefix {
 		t := simrt.NewTape(runSeed(rf.BaseSeed, rf.Property, i))
+		simrt.ResetPools()
 		w.run(&Ctx{T: t, Tier: rf.Tier, Cfg: rf.Cfg, Cnt: cnt, Run: i})
 	}
 	emit(&outLine{K: "at", I: rf.Run})
 	t := simrt.NewReplay(rf.TapeSeed, rf.Tape)
+	simrt.ResetPools()
 	r := w.run(&Ctx{T: t, Tier: rf.Tier, Cfg: rf.Cfg, Cnt: cnt, Run: rf.Run})
 	rec := t.Recorded()
 	emit(&outLine{K: "replayed", I: rf.Run, Sig: r.Sig, Detail: r.Detail, Tape: &rec, Sample: r.Sample,
